@@ -227,7 +227,7 @@ def items():
             Hole("literal: literal.into(),", "literal: verif::into_short(literal),", kind="wrapper", why="<String as Into<ShortString>>::into"),
             Between("lazy_static::lazy_static! {", """                    })
                     .into();""", "let quote_to_use = get_quote_to_use(ctx, literal.as_str());\n let literal = verif::rewrite_escapes(literal.as_str(), quote_type, &quote_to_use);",
-                    why="lazy_static regexes RE / UNNECESSARY_ESCAPES and the replace_all closure: escape rewriting is assumed value-preserving"),
+                    why="lazy_static regexes RE / UNNECESSARY_ESCAPES and the replace_all closure: escape rewriting is assumed value-preserving (text pinned by sha256)", pin="01ffed51ad88"),
             Hole("let line = format_single_line_comment_string(line).into();", "let line = verif::str_into_short(format_single_line_comment_string(line.as_str()));", kind="wrapper", why="<&str as Into<ShortString>>::into"),
             Hole("debug_assert!(matches!(format_type, FormatTokenType::LeadingTrivia));", "", why="debug-only assertion dropped (compiled out in release builds)"),
             Hole("let comment = format_single_line_comment_string(comment).into();", "let comment = verif::str_into_short(format_single_line_comment_string(comment.as_str()));", kind="wrapper", why="<&str as Into<ShortString>>::into"),
